@@ -378,6 +378,7 @@ func c46Port(g *vkit.Rand) uint16 {
 func c46TLVs(g *vkit.Rand) []pp.TLV {
 	var out []pp.TLV
 	n := g.Intn(4)
+	total := 0 // "this block is always smaller than an MSS": keep the whole header below 1400 bytes
 	for i := 0; i < n; i++ {
 		t := []byte{0x01, 0x02, 0x03, 0x04, 0x05, 0x20, 0x30, 0xE0, byte(g.Intn(256))}[g.Intn(9)]
 		ln := g.Intn(40)
@@ -387,6 +388,10 @@ func c46TLVs(g *vkit.Rand) []pp.TLV {
 		case 1:
 			ln = 200 + g.Intn(600)
 		}
+		if total+3+ln > 1300 {
+			ln = 0
+		}
+		total += 3 + ln
 		v := g.Bytes(ln)
 		if t == 0x04 {
 			v = make([]byte, ln) // NOOP padding is zero filled
